@@ -1,0 +1,125 @@
+//go:build verif
+
+// Export shims for the verification harness (property C07: encodings round-trip).
+// Additive only: nothing here is referenced by production code, and the file is
+// compiled only with `-tags verif`.
+
+package immutable
+
+import (
+	"fmt"
+
+	"github.com/openGemini/openGemini/lib/record"
+	"github.com/openGemini/openGemini/lib/util/lifted/vm/protoparser/influx"
+)
+
+// VerifPreAgg is the decoded pre-aggregation block of one column of one chunk.
+type VerifPreAgg struct {
+	HasMinMax bool // false for string and time columns
+	HasSum    bool // integer and float columns
+	Min, Max  interface{}
+	MinTime   int64
+	MaxTime   int64
+	Sum       interface{}
+	Count     int64
+}
+
+// VerifColumnPreAgg decodes the pre-aggregation bytes of a column meta with the same
+// unmarshal code the readers use (PreAggBuilder.unmarshal).
+func VerifColumnPreAgg(cm *ColumnMeta) (res VerifPreAgg, err error) {
+	var b PreAggBuilder
+	switch int(cm.ty) {
+	case influx.Field_Type_Int:
+		if cm.IsTime() {
+			b = NewTimePreAgg()
+		} else {
+			b = NewIntegerPreAgg()
+		}
+	case influx.Field_Type_Float:
+		b = NewFloatPreAgg()
+	case influx.Field_Type_String:
+		b = NewStringPreAgg()
+	case influx.Field_Type_Boolean:
+		b = NewBooleanPreAgg()
+	default:
+		return res, fmt.Errorf("unknown column type %d", cm.ty)
+	}
+	if _, err = b.unmarshal(cm.preAgg); err != nil {
+		return res, err
+	}
+	res.Count = b.count()
+	switch b.(type) {
+	case *IntegerPreAgg, *FloatPreAgg:
+		res.HasMinMax, res.HasSum = true, true
+		res.Min, res.MinTime = b.min()
+		res.Max, res.MaxTime = b.max()
+		res.Sum = b.sum()
+	case *BooleanPreAgg:
+		res.HasMinMax = true
+		res.Min, res.MinTime = b.min()
+		res.Max, res.MaxTime = b.max()
+	}
+	return res, nil
+}
+
+// VerifMetaIndexTimes exposes the time range stored in a meta index item.
+func VerifMetaIndexTimes(m *MetaIndex) (minT, maxT int64) { return m.minTime, m.maxTime }
+
+// VerifTrailerInfo exposes the id / time summary stored in the file trailer.
+func VerifTrailerInfo(t *Trailer) (minID, maxID uint64, idCount int64, minT, maxT int64) {
+	return t.minId, t.maxId, t.idCount, t.minTime, t.maxTime
+}
+
+// VerifEncodeChunk encodes one series record exactly as MsBuilder.WriteData does
+// (TsChunkDataImp.EncodeChunk: column split into segments, column headers, block
+// codecs, pre-aggregation, time ranges) without touching a file. The chunk is laid out
+// as if it started at file offset baseOffset. The returned ChunkMeta belongs to a builder
+// created for this call only.
+func VerifEncodeChunk(rec *record.Record, sid uint64, maxRowsPerSegment, maxSegmentLimit int, baseOffset int64) (chunk []byte, cm *ChunkMeta, err error) {
+	record.CheckRecord(rec)
+	b := NewChunkDataBuilder(maxRowsPerSegment, maxSegmentLimit)
+	b.chunkMeta = &ChunkMeta{}
+	imp := &TsChunkDataImp{}
+	chunk, err = imp.EncodeChunk(b, sid, baseOffset, rec, nil, true)
+	if err != nil {
+		return nil, nil, err
+	}
+	cm = b.chunkMeta
+	out := make([]byte, len(chunk))
+	copy(out, chunk)
+	if b.colBuilder != nil && b.colBuilder.coder != nil {
+		b.colBuilder.coder.Release()
+	}
+	return out, cm, nil
+}
+
+// VerifDecodeSegment decodes segment `segment` of a chunk produced by VerifEncodeChunk
+// into dst (whose Schema selects the columns, time last) with the functions the file
+// reader uses (decodeColumnData / appendTimeColumnData).
+func VerifDecodeSegment(cm *ChunkMeta, chunk []byte, segment int, dst *record.Record, ctx *ReadContext) error {
+	schema := dst.Schema
+	for i := range schema[:len(schema)-1] {
+		ref := &schema[i]
+		idx := cm.columnIndex(ref)
+		if idx < 0 {
+			return fmt.Errorf("column %s not in chunk meta", ref.Name)
+		}
+		seg := cm.colMeta[idx].entries[segment]
+		off, size := seg.OffsetSize()
+		data := columnData(chunk, cm.offset, off, size)
+		if err := decodeColumnData(ref, data, dst.Column(i), ctx, false); err != nil {
+			return fmt.Errorf("column %s: %w", ref.Name, err)
+		}
+	}
+	seg := cm.timeMeta().entries[segment]
+	off, size := seg.OffsetSize()
+	return appendTimeColumnData(columnData(chunk, cm.offset, off, size), dst.TimeColumn(), ctx, false)
+}
+
+// VerifSegmentBytes returns the encoded bytes of one segment of one column (index into
+// GetColMeta()) of a chunk produced by VerifEncodeChunk.
+func VerifSegmentBytes(cm *ChunkMeta, chunk []byte, col, segment int) []byte {
+	seg := cm.colMeta[col].entries[segment]
+	off, size := seg.OffsetSize()
+	return columnData(chunk, cm.offset, off, size)
+}
